@@ -1,0 +1,119 @@
+//go:build verif
+
+package verifapi
+
+import (
+	"github.com/tidwall/geojson"
+	"github.com/tidwall/geojson/geo"
+	"github.com/tidwall/geojson/geometry"
+)
+
+// PointDistance returns a.Distance(b) for two geojson Point objects, the
+// expression the server uses for the metres of roaming fences and NEARBY.
+func PointDistance(latA, lonA, latB, lonB float64) float64 {
+	a := geojson.NewPoint(geometry.Point{X: lonA, Y: latA})
+	b := geojson.NewPoint(geometry.Point{X: lonB, Y: latB})
+	return a.Distance(b)
+}
+
+// RectFromCenter calls geo.RectFromCenter, the bounding rectangle the server
+// searches for a circle of the given radius.
+func RectFromCenter(lat, lon, meters float64) (minLat, minLon, maxLat, maxLon float64) {
+	return geo.RectFromCenter(lat, lon, meters)
+}
+
+// PointInRect reports whether the Point object intersects the rectangle
+// object, as collection.Intersects decides it for a point.
+func PointInRect(lat, lon, minLat, minLon, maxLat, maxLon float64) bool {
+	p := geojson.NewPoint(geometry.Point{X: lon, Y: lat})
+	r := geojson.NewRect(geometry.Rect{
+		Min: geometry.Point{X: minLon, Y: minLat},
+		Max: geometry.Point{X: maxLon, Y: maxLat},
+	})
+	return p.Intersects(r)
+}
+
+// FenceArea describes the area of a static fence as the server builds it:
+// Kind "circle" (NEARBY ... POINT lat lon meters, WITHIN/INTERSECTS ... CIRCLE)
+// or "bounds" (WITHIN/INTERSECTS ... BOUNDS minlat minlon maxlat maxlon).
+type FenceArea struct {
+	Kind                           string
+	Lat, Lon, Meters               float64
+	MinLat, MinLon, MaxLat, MaxLon float64
+}
+
+func (a FenceArea) object() geojson.Object {
+	if a.Kind == "circle" {
+		return geojson.NewCircle(geometry.Point{X: a.Lon, Y: a.Lat}, a.Meters, 64)
+	}
+	return geojson.NewRect(geometry.Rect{
+		Min: geometry.Point{X: a.MinLon, Y: a.MinLat},
+		Max: geometry.Point{X: a.MaxLon, Y: a.MaxLat},
+	})
+}
+
+// FenceHit evaluates the spatial test of a static fence (fenceMatchObject) for
+// a Point object: Intersects for "nearby" and "intersects", Within for "within".
+func FenceHit(cmd string, a FenceArea, lat, lon float64) bool {
+	p := geojson.NewPoint(geometry.Point{X: lon, Y: lat})
+	if cmd == "within" {
+		return p.Within(a.object())
+	}
+	return p.Intersects(a.object())
+}
+
+// FenceCross evaluates the "cross" test of fenceMatch: the line between the
+// two centres intersects the area.
+func FenceCross(a FenceArea, latA, lonA, latB, lonB float64) bool {
+	ls := geojson.NewLineString(geometry.NewLine([]geometry.Point{
+		{X: lonA, Y: latA}, {X: lonB, Y: latB},
+	}, nil))
+	return ls.Intersects(a.object())
+}
+
+// FenceAreaRect returns the bounding rectangle of the area (minX, minY, maxX, maxY),
+// the rectangle under which a hook is indexed.
+func FenceAreaRect(a FenceArea) (float64, float64, float64, float64) {
+	r := a.object().Rect()
+	return r.Min.X, r.Min.Y, r.Max.X, r.Max.Y
+}
+
+// FenceObj describes a stored object: Kind "point" (SET ... POINT lat lon) or
+// "bounds" (SET ... BOUNDS lat-half lon-half lat+half lon+half, given by its
+// four bounds).
+type FenceObj struct {
+	Kind                           string
+	Lat, Lon                       float64
+	MinLat, MinLon, MaxLat, MaxLon float64
+}
+
+func (o FenceObj) object() geojson.Object {
+	if o.Kind == "bounds" {
+		return geojson.NewRect(geometry.Rect{
+			Min: geometry.Point{X: o.MinLon, Y: o.MinLat},
+			Max: geometry.Point{X: o.MaxLon, Y: o.MaxLat},
+		})
+	}
+	return geojson.NewPoint(geometry.Point{X: o.Lon, Y: o.Lat})
+}
+
+// FenceHitObj is FenceHit for a point or rectangle object.
+func FenceHitObj(cmd string, a FenceArea, o FenceObj) bool {
+	if cmd == "within" {
+		return o.object().Within(a.object())
+	}
+	return o.object().Intersects(a.object())
+}
+
+// FenceObjRect returns the object's bounding rectangle (minX, minY, maxX, maxY).
+func FenceObjRect(o FenceObj) (float64, float64, float64, float64) {
+	r := o.object().Rect()
+	return r.Min.X, r.Min.Y, r.Max.X, r.Max.Y
+}
+
+// FenceObjCenter returns the object's centre (lat, lon), the end points of the
+// line fenceMatch tests for "cross".
+func FenceObjCenter(o FenceObj) (float64, float64) {
+	c := o.object().Center()
+	return c.Y, c.X
+}
